@@ -17,7 +17,22 @@ N = {'quick': 450, 'thorough': 3000}
 SHARDS = {'quick': 4, 'thorough': 16}
 
 
+def _with_scenario(pair):
+    case, pick = pair
+    if pick and H.backend_archived(case['backend']) and not case.get('attach_later'):
+        # half of the archived cases start with a constructed miss / hit / dump / clear / load / reset sequence, so that all three
+        # outcomes and a reset occur without depending on luck; the generated history follows
+        pre = [['call', 0, 0, 0], ['call', 0, 1, 0], ['call', 1, 0, 0], ['dump'], ['clear' if pick == 1 else 'clearkeep'], ['call', 0, 0, 0], ['call', 1, 2, 0]]
+        case = dict(case, ops=pre + list(case['ops']))
+    return case
+
+
 def strata(tier):
+    from hypothesis import strategies as st
+    return [(n, st.tuples(s, st.sampled_from([0, 1, 2])).map(_with_scenario)) for n, s in _strata(tier)]
+
+
+def _strata(tier):
     return G.strata_grid(
         maxsizes=(2, 1, 3, 5, 0, None),
         weights={'call': 14, 'burst': 1, 'load': 2, 'dump': 1, 'dumpk': 1, 'loadk': 1, 'clear': 2, 'clearkeep': 2,
